@@ -27,13 +27,17 @@ func MakeBitMasks(instruction []byte, bitmaskData []byte) (Bitmask, ExitReason) 
 		return nil, ExitPanic
 	}
 
+	// Basic-block starts (A.5): 0 and every n+1+skip(n) where n is a terminator instruction,
+	// restricted to instruction starts holding a defined opcode. skip(n) is at most 24, so an
+	// instruction start further than that behind a terminator is not a block start.
 	bitmask := make(Bitmask, instSize)
-	prev := 0
+	prev := -1
 	for i := range instSize {
 		if bitmaskData[i/8]&(1<<(i%8)) > 0 {
 			bitmask[i] = 0x01
 
-			if i == 0 || IsBlockTerminator(instruction[prev]) {
+			afterTerminator := prev >= 0 && IsBlockTerminator(instruction[prev]) && i-prev-1 <= 24
+			if (i == 0 || afterTerminator) && IsValidOpcode(instruction[i]) {
 				bitmask[i] |= 0x02
 			}
 
